@@ -16,6 +16,8 @@ SPEC = {
         H("c19::c19_parse_level_ascii4", desc="Level::from_str on every ASCII string of 0..=4 bytes vs grammar oracle", sym="4 bytes, length"),
         H("c19::c19_parse_filter_ascii6", desc="LevelFilter::from_str on every ASCII string of 1..=6 bytes", sym="6 bytes, length"),
         H("c19::c19_parse_level_ascii6", desc="Level::from_str on every ASCII string of 0..=6 bytes", sym="6 bytes, length"),
+        H("c19::c19_parse_filter_ascii7", tier="thorough", desc="LevelFilter::from_str on every ASCII string of 1..=7 bytes (over-long numerals such as 0000003 included)", sym="7 bytes, length"),
+        H("c19::c19_parse_level_ascii7", tier="thorough", desc="Level::from_str on every ASCII string of 0..=7 bytes", sym="7 bytes, length"),
         H("c19::c19_parse_utf8_2byte", desc="strings <=5 bytes containing a 2-byte UTF-8 scalar are rejected by both parsers", sym="bytes, position, scalar"),
         H("c19::c19_name_roundtrip", desc="as_str() parses back to the same Level and LevelFilter", sym="level in 5"),
         H("c19::c19_display_roundtrip", desc="Display through real core::fmt (no fmt stub) then parse gives the value back", sym="filter in 6"),
@@ -28,13 +30,13 @@ SPEC = {
         "<Level as FromStr>::from_str, <LevelFilter as FromStr>::from_str, Level::as_str, Display for Level/LevelFilter",
         "tracing::level_filters::STATIC_MAX_LEVEL",
     ],
-    "sym": "operands over all 5 levels / 6 filters; strings: every ASCII byte string up to 6 bytes (plus one embedded 2-byte scalar)",
-    "bounds": "finite operand domain decided completely by the solver; strings <= 6 bytes (longer strings can only be longer numerals or rejections); unwind 8/10 with unwinding assertions",
-    "outside": "strings longer than 6 bytes; 3- and 4-byte UTF-8 scalars; tracing-log and tracing-subscriber re-exports (C18 covers the log conversions)",
+    "sym": "operands over all 5 levels / 6 filters; strings: every ASCII byte string up to 7 bytes (plus one embedded 2-byte scalar)",
+    "bounds": "finite operand domain decided completely by the solver; strings <= 7 bytes (longer strings can only be longer numerals or rejections); unwind 8/10 with unwinding assertions",
+    "outside": "strings longer than 7 bytes; 3- and 4-byte UTF-8 scalars; tracing-log and tracing-subscriber re-exports (C18 covers the log conversions)",
     "stubs": ["core::fmt::write -> Ok(()) in parse harnesses (only panic/err text); none in c19_display_roundtrip", "H1 wrapper __verif::set_max / max_level_raw forward to the private items"],
     "assumptions": ["Kani models debug-profile build (unreachable! arm of current()); the stored-value-in-0..=5 assertion covers the release arm", "the grammar oracle for usize::from_str (optional '+', digits) is correct for inputs <= 6 bytes"],
     "manifest": {
-        "text": "Bounded proof: every ordered pair of the 5 levels / 6 filters under every comparison operator, every conversion, set_max/current, and every ASCII string up to 6 bytes through both FromStr impls are decided by CBMC over the compiled tracing-core against a rank/grammar oracle. The domain is finite, so within the string bound this is complete; it is the right level because the property is a finite algebraic fact where one wrong arm is a rare input.",
+        "text": "Bounded proof: every ordered pair of the 5 levels / 6 filters under every comparison operator, every conversion, set_max/current, and every ASCII string up to 7 bytes through both FromStr impls are decided by CBMC over the compiled tracing-core against a rank/grammar oracle. The domain is finite, so within the string bound this is complete; it is the right level because the property is a finite algebraic fact where one wrong arm is a rare input.",
         "note": "Trusts rustc MIR, Kani codegen, CBMC, CaDiCaL and the 40-line oracle; core::fmt::write is stubbed in parse harnesses (only error text); known finding levelfilter_parse_empty is excluded by role and listed in KNOWN_FINDINGS.txt.",
         "design_ref": "DESIGN.md §6 C19",
     },
